@@ -22,6 +22,7 @@ HAZ = {
 CJK = ["中文", "日本語abc", "abc漢字", "漢"]
 QUOTES = ['"quoted', 'phrase"', "'single", "q'", '"word"', "'w'", "it's", "Jones'", 'x="foo"', "x='y'", '\\"esc\\"', "\\'e\\'", '—"dash"', '"a', 'b",',
           '("paren")', '"end."', "'tis", "rock'n'roll", '""', "''", '"', "'", 'say:"x"', '"q"?', "’already’", "“curly”", "don't", "dogs'", "'90s", '"Hello,"',
+          "'end.'", "'stop!'", "said.'", "word.'", '"done."', "'really?'", "disaster.'",
           '"`code`"', "'*em*'", '"[l](u)"', '**"bold"**', '"{{ v }}"', "{% t a='b' %}'s"]
 DOTS = ["...", "wait...", "...and", "a...b", "....", "..", "x....y", "end...", '"...', '..."', "...,", "(...)", "...)", "1...", "…", "word…", "... ...", "......",
         "`...`", "[...](u)", "*...*", "-...", "...!", "...?"]
@@ -57,21 +58,23 @@ def atoms(feat):
     if "code" in feat:
         a += [ph.map(lambda s: f"`{s}`"), st.sampled_from(["`a  b`", "`` `x` ``",] + (["``a`b``", "`` ` ``"] if "code_inner_tick" in feat else []) + [ "`*not em*`", "`<b>`", "`{% t %}`", "`|`", "`it's \"q\"...`", "`-`", "`1.`"])]
     if "link" in feat:
-        url = st.sampled_from(["http://example.com/a_b*c", "https://x.y/z?q=1&r=2", "/rel/path", "#frag", "url"] + (["<http://a b.c>", "a(b", "<a)b>"] if "link_angle" in feat else []))
-        title = st.sampled_from(["", ' "Title here"', " 'single q'", ' (paren t)', ' "it\'s"', ' "a \\"q\\" b"'])
+        url = st.sampled_from(["http://example.com/a_b*c", "https://x.y/z?q=1&r=2", "/rel/path", "#frag", "url"] + (["/two", "http://ref.one/x", "http://three.x"] if "refdef" in feat else []) + (["<http://a b.c>", "a(b", "<a)b>"] if "link_angle" in feat else []))
+        title = st.sampled_from(["", "", ' "Ref One"', ' "Title here"', " 'single q'", ' (paren t)', ' "it\'s"', ' "a \\"q\\" b"'])
         a += [st.tuples(ph, url, title).map(lambda t: f"[{t[0]}]({t[1]}{t[2]})"),
               st.tuples(ph, url, title).map(lambda t: f"![{t[0]}]({t[1]}{t[2]})"),
               st.tuples(ph, url).map(lambda t: f"[*{t[0]}* `c d`]({t[1]})")]
     if "reflink" in feat:
         a += [ph.map(lambda s: f"[{s}][ref1]"), st.just("[ref2]"), st.just("[ref1][]"), st.just("[undefined ref]"), st.just("[text][nodef]")]
     if "autolink" in feat:
-        a += [st.sampled_from(["<http://auto.link/x>", "<mailto:a@b.c>", "<a@b.co>", "http://bare.example.com/p", "www.example.com", "https://e.x/a_(b)", "user@example.com"])]
+        a += [st.sampled_from(["<http://auto.link/x>", "<mailto:a@b.c>", "<a@b.co>", "http://bare.example.com/p", "www.example.com", "https://e.x/a_(b)", "user@example.com",
+                              "http://example.com/wiki/Murphy's_law", "www.example.com/it's", "https://e.x/q?a=\"b\"", "http://e.x/wait...more"])]
     if "html" in feat:
         a += [st.sampled_from(["<b>", "</b>", "<br/>", '<span class="a b">', "</span>", '<a href="x y" title=\'t u\'>', "<!-- a comment here -->", "<!--c-->", "<x-y z>"])]
     if "tags" in feat:
         a += [st.sampled_from(["{% tag %}", "{% /tag %}", '{% field kind="string" id="a b" %}', "{% field %}{% /field %}", "{{ var }}", "{{ a | f('x y') }}", "{# a comment #}", "{%- trim -%}", "{% a %}{% b %}", "<!-- f:x --><!-- /f -->",
                               '{% note "hello there" %}', "{# it's a \"comment\" here #}", "<!-- don't \"touch\" this... -->", '{{ "x" }}', "{{ 'y' }}", "{% if a == 'b c' %}",
-                              "{% t ... %}", "<!-- wait... -->"])]
+                              "{% t ... %}", "<!-- wait... -->",
+                              '{% if n % 2 == "odd" %}', "{{ t(\"it's\", {}) }}", "{# it's #1 here #}"])]
     if "escape" in feat:
         a += [st.sampled_from(["\\*", "\\_", "1\\.", "\\#", "\\-", "\\>", "\\[x\\]", "a\\*b", "\\|", "\\<b\\>", "\\&amp;"] + (["\\`", "\\\\"] if "escape_tick" in feat else []))]
     if "fnref" in feat: a += [st.just("[^fn1]"), st.just("[^nofn]")]
